@@ -144,6 +144,15 @@ class SignEnv:
                 return NONNEG if last != "exp" else POS
             if last in ("dot", "vdot", "inner") and len(e.args) == 2 and norm_src(e.args[0]) == norm_src(e.args[1]):
                 return NONNEG
+            if last in ("where", "if_then_else") and len(e.args) == 3:
+                a, b = self.sign(e.args[1], depth - 1), self.sign(e.args[2], depth - 1)
+                if a == b:
+                    return a
+                if is_nonneg(a) and is_nonneg(b):
+                    return NONNEG
+                if is_nonpos(a) and is_nonpos(b):
+                    return NONPOS
+                return TOP
             if last in ("mean", "sum", "average", "amax", "amin", "nanmean", "cumsum", "max", "min") and len(e.args) == 1:
                 # order-preserving reductions of one array keep a definite sign
                 a = self.sign(e.args[0], depth - 1)
